@@ -18,6 +18,9 @@ The theorems are split over the files of `Props/C16/` (all in namespace `MysticV
             pairs name as their tracker (`set(trac)`), frame of a round, one round when no tracker is a partner; several
             partners of one tracker (partners / pairs repeated): pair clause for every pair, frame, conforming input left
             alone, idempotent; the docstring's examples and the closed-term witnesses of the offset defects
+  Unique  - unique / impose_unique for ANY sequence of allowed values (repeated members, any order): the contract of the
+            replacement pool (`list(set(full) - set(x))`), length / pairwise distinct / allowed under it, first occurrences
+            stay, conforming input left alone, twice = once; witnesses: a pool with repeats, `len(full)` counting repeats
 -/
 import MysticVerif.Props.C16.Core
 import MysticVerif.Props.C16.Insert
@@ -25,3 +28,4 @@ import MysticVerif.Props.C16.Ties
 import MysticVerif.Props.C16.Stats
 import MysticVerif.Props.C16.Select
 import MysticVerif.Props.C16.Track
+import MysticVerif.Props.C16.Unique
